@@ -76,6 +76,19 @@ REQUIRED_KINDS = (
 )
 
 
+# may-reject reasons (refselector.classify_support) swept in part 1b so that "rejected or reference value" is exercised per construct
+MAY_REASONS = (
+    ["operator " + k for k in ("Sub", "FloorDiv", "Pow", "BitXor", "LShift", "RShift")]
+    + ["unary " + k for k in ("USub", "UAdd", "Invert")]
+    + ["construct " + k for k in ("IfExp", "Subscript", "Dict", "Set", "ListComp", "JoinedStr", "Lambda", "Slice")]
+    + ["tuple target", "loop variable re-uses a bound name", "call target is not a whitelisted name",
+       "bare field-type constructor (interpreted engine only)"]
+)
+# kinds whose sweep also runs on the grouped record of the pool
+GROUPED_KINDS = {"call:names", "call:name", "call:has_field", "call:field_contains", "call:field_equals", "call:field_regex",
+                 "type:Eq", "type:NotEq", "type:contains", "type:as-fields"}
+
+
 # ---- AST inspection ---------------------------------------------------------------------------------
 def _is_type_chain(n):
     while isinstance(n, ast.Attribute):
@@ -158,93 +171,6 @@ def reads_a_field(tree):
     return False
 
 
-def has_value_position_boolop(tree):
-    """Is there an `and`/`or` whose *value* (not only its truth value) is used?"""
-    found = []
-
-    def visit(n, truth):
-        if isinstance(n, ast.BoolOp):
-            if not truth:
-                found.append(n)
-            for v in n.values:
-                visit(v, truth)   # operands of a BoolOp in truth position are in truth position too
-            return
-        if isinstance(n, ast.UnaryOp) and isinstance(n.op, ast.Not):
-            visit(n.operand, True)
-            return
-        if isinstance(n, ast.IfExp):
-            visit(n.test, True)
-            visit(n.body, truth)
-            visit(n.orelse, truth)
-            return
-        if isinstance(n, ast.GeneratorExp):
-            for g in n.generators:
-                visit(g.iter, False)
-                for c in g.ifs:
-                    visit(c, True)
-            visit(n.elt, False)  # refined below for any()/all()
-            return
-        if isinstance(n, ast.Call) and isinstance(n.func, ast.Name) and n.func.id in ("any", "all") and len(n.args) == 1 \
-                and isinstance(n.args[0], ast.GeneratorExp):
-            g = n.args[0]
-            for c in g.generators:
-                visit(c.iter, False)
-                for cond in c.ifs:
-                    visit(cond, True)
-            visit(g.elt, True)
-            return
-        for c in ast.iter_child_nodes(n):
-            visit(c, False)
-
-    visit(tree.body, True)
-    return bool(found)
-
-
-def has_nested_generator(tree):
-    """A generator expression inside the element, a condition or a later iterable of another one (evaluated repeatedly)."""
-    for n in ast.walk(tree):
-        if isinstance(n, ast.GeneratorExp):
-            inner = [n.elt] + [c for g in n.generators for c in g.ifs] + [g.iter for g in n.generators[1:]]
-            for part in inner:
-                if any(isinstance(x, ast.GeneratorExp) for x in ast.walk(part)):
-                    return True
-    return False
-
-
-REUSE = "loop variable re-uses a bound name"
-
-
-def support_class(expr, tree):
-    """refselector.classify_support, except that a loop variable name used again by a later, non-nested generator is
-    must-support (both engines scope loop variables to their generator); only re-use of a name that is still bound -
-    the variable of an enclosing generator or of an earlier for clause, or r / Type / a helper name - stays may-reject."""
-    cls, reasons = classify_support(expr)
-    reasons = set(reasons)
-    if REUSE in reasons:
-        reasons.discard(REUSE)
-        hit = []
-
-        def visit(n, bound):
-            if isinstance(n, ast.GeneratorExp):
-                inner = set(bound)
-                for g in n.generators:
-                    for t in ast.walk(g.target):
-                        if isinstance(t, ast.Name):
-                            if t.id in inner or t.id in refselector.RESERVED_NAMES:
-                                hit.append(t.id)
-                            inner.add(t.id)
-                for c in ast.iter_child_nodes(n):
-                    visit(c, inner)
-                return
-            for c in ast.iter_child_nodes(n):
-                visit(c, bound)
-
-        visit(tree.body, set())
-        if hit:
-            reasons.add(REUSE + " (still bound)")
-    return ("may-reject" if reasons else "must"), reasons
-
-
 def _is_network_valued(n):
     """Syntactically a network: net.ipnetwork(...) / net.IPNetwork(...) or one of the pool's network fields."""
     if isinstance(n, ast.Call):
@@ -254,27 +180,31 @@ def _is_network_valued(n):
     return False
 
 
-class _ReverseMembershipToFalse(ast.NodeTransformer):
-    """`Type.<t> in <network>` -> False: what Python's container protocol gives when the network is handed the matcher
-    object itself (the mechanism of compiled-reverse-membership-typematcher)."""
+def _is_text_valued(n):
+    """Syntactically a text: a str literal or one of the pool's text fields."""
+    if isinstance(n, ast.Constant):
+        return isinstance(n.value, str)
+    if isinstance(n, ast.Attribute) and isinstance(n.value, ast.Name) and n.value.id == "r":
+        return n.attr in selgen.SHAPE_INFO["text"]
+    return False
 
-    def __init__(self):
-        self.hits = 0
+
+def _is_reverse_membership(n):
+    return isinstance(n, ast.Compare) and len(n.ops) == 1 and isinstance(n.ops[0], ast.In) and _is_type_chain(n.left)
+
+
+class _ReverseMembershipTo(ast.NodeTransformer):
+    """`Type.<t> in <container>` -> constant, for containers selected by `pred`."""
+
+    def __init__(self, pred, value):
+        self.pred, self.value, self.hits = pred, value, 0
 
     def visit_Compare(self, n):
         self.generic_visit(n)
-        if len(n.ops) == 1 and isinstance(n.ops[0], ast.In) and _is_type_chain(n.left) and _is_network_valued(n.comparators[0]):
+        if _is_reverse_membership(n) and self.pred(n.comparators[0]):
             self.hits += 1
-            return ast.copy_location(ast.Constant(False), n)
+            return ast.copy_location(ast.Constant(self.value), n)
         return n
-
-
-class _BoolOpToBool(ast.NodeTransformer):
-    """every `a and b` / `a or b` -> BOOL_(a and b): the value an engine computes when it coerces BoolOps to bool."""
-
-    def visit_BoolOp(self, n):
-        self.generic_visit(n)
-        return ast.copy_location(ast.Call(func=ast.Name("BOOL_", ast.Load()), args=[n], keywords=[]), n)
 
 
 def ref_truth(tree, rec, patch=None):
@@ -293,41 +223,34 @@ def ref_truth(tree, rec, patch=None):
 
 # ---- classifiers: name the mechanism of a known defect from the case itself ---------------------------
 def classify(engine, tree, rec, ref, got, exc):
-    from flow.record import GroupedRecord
-
-    # compiled engine: `Type.<t> in <network>` evaluated by the container protocol on the matcher object -> False
-    if engine == "compiled" and got[0] == "V":
-        tr = _ReverseMembershipToFalse()
+    """Only mechanisms listed as `known` have a classifier; repaired ones (chained comparison, generator if, typed
+    matcher <= >=, BoolOp value, nested generator, names() on grouped records, reverse membership in nested records)
+    are plain violations again."""
+    # compiled engine: `Type.<t> in <container>` is evaluated by Python's container protocol on the matcher object itself:
+    # a network answers False, a text raises TypeError (a list / tuple compares element == matcher, which coincides)
+    if engine == "compiled":
+        tr = _ReverseMembershipTo(_is_network_valued, False)
         alt_tree = ast.fix_missing_locations(tr.visit(copy.deepcopy(tree)))
-        if tr.hits:
-            try:
-                if ref_truth(alt_tree, rec) == got[1]:
-                    return "compiled-reverse-membership-typematcher"
-            except (Undefined, Unsupported):
-                pass
-    # compiled engine: names(r) is handed the wrapper, so a grouped record is not recognised -> {descriptor name}
-    if engine == "compiled" and got[0] == "V" and isinstance(rec, GroupedRecord) \
-            and any(isinstance(n, ast.Call) and refselector.call_path(n) == "names" for n in ast.walk(tree)):
         try:
-            if ref_truth(tree, rec, {"names": lambda r: {rec._desc.name}}) == got[1]:
-                return "compiled-names-grouped-record"
-        except (Undefined, Unsupported):
-            pass
-    # interpreted engine: BoolOp operands are coerced to bool, so `(r.n and r.s) == "x"` compares True with "x"
-    if engine == "interpreted" and got[0] == "V" and has_value_position_boolop(tree):
-        alt_tree = ast.fix_missing_locations(_BoolOpToBool().visit(copy.deepcopy(tree)))
-        try:
-            if ref_truth(alt_tree, rec, {"BOOL_": bool}) == got[1]:
-                return "interpreted-boolop-returns-bool"
-        except (Undefined, Unsupported):
-            pass
-    # interpreted engine: the loop variable of a nested generator is still bound when that generator is built again
-    if engine == "interpreted" and got[0] == "E" and has_nested_generator(tree):
-        import flow.record.selector as sel
+            if got[0] == "V" and tr.hits and ref_truth(alt_tree, rec) == got[1]:
+                return "compiled-reverse-membership-typematcher"
+            if got[0] == "E" and isinstance(exc, TypeError):
+                # attributable to the text containers iff the rest of the expression is evaluated correctly whichever
+                # value those sub-comparisons are given
+                from flow.record.selector import CompiledSelector
 
-        inv = getattr(sel, "InvalidOperation", None)
-        if inv is not None and isinstance(exc, inv):
-            return "interpreted-nested-generator-rebinds"
+                ok = 0
+                for b in (False, True):
+                    tb = _ReverseMembershipTo(_is_text_valued, b)
+                    tree_b = ast.fix_missing_locations(tb.visit(copy.deepcopy(alt_tree)))
+                    if not tb.hits:
+                        break
+                    if run_engine(CompiledSelector, ast.unparse(tree_b), rec)[0] == ("V", ref_truth(tree_b, rec)):
+                        ok += 1
+                if ok == 2:
+                    return "compiled-reverse-membership-typematcher"
+        except (Undefined, Unsupported):
+            pass
     return None
 
 
@@ -375,8 +298,25 @@ def generate(ctx):
             if expr is None:
                 ctx.note_add("sweep_kind_not_generated:" + kind)
                 continue
-            for ri in (rng.randrange(0, 6), rng.randrange(0, 8)):
+            recs = [rng.randrange(0, 6), rng.randrange(0, 8)] + ([POOL_SIZE - 1] if kind in GROUPED_KINDS else [])
+            for ri in recs:
                 yield {"k": "sweep", "kind": kind, "expr": expr, "tags": tags, "pool": pool_seeds[j % npools], "rec": ri}
+    # part 1b: may-reject sweep
+    reps = ctx.scale(6, 20)
+    for reason in MAY_REASONS:
+        rng = random.Random(subseed("c07", ctx.seed, ctx.shard, "may-sweep", reason))
+        for j in range(reps):
+            expr = None
+            for _ in range(600):
+                e, tags = selgen.gen_expr(rng, rng.choice([0, 1, 1, 2]), support="any", avoid=(), with_tags=True)
+                if "may-reject" in tags and reason in classify_support(e)[1]:
+                    expr = e
+                    break
+            if expr is None:
+                ctx.note_add("may_reject_reason_not_generated:" + reason)
+                continue
+            for ri in (rng.randrange(0, 6), rng.randrange(0, 8)):
+                yield {"k": "may-sweep", "kind": reason, "expr": expr, "tags": tags, "pool": pool_seeds[j % npools], "rec": ri}
     # part 2: random expressions, deeper
     n = ctx.scale(450, 20000)
     depths = [0, 1, 2, 2, 3, 3] if ctx.quick else [1, 2, 3, 3, 4, 4, 5, 6]
@@ -404,7 +344,7 @@ def execute(ctx, case):
     shape = selgen.shape_of(rec)
     ctx.ev()
     tree = ast.parse(expr, mode="eval")
-    support, reasons = support_class(expr, tree)
+    support, reasons = classify_support(expr)
     ctx.event("class:" + support)
 
     try:
@@ -423,7 +363,9 @@ def execute(ctx, case):
     # oracle self-check: on plain Python (no typed matcher) the walker must agree with builtin eval
     if not any(isinstance(n, ast.Name) and n.id == "Type" for n in ast.walk(tree)):
         try:
-            ev = bool(eval(compile(tree, "<selfcheck>", "eval"), {"__builtins__": {}}, refselector.make_namespace(rec, False)))  # noqa: S307
+            g = dict(refselector.make_namespace(rec, False))
+            g["__builtins__"] = {}   # as globals: names must be visible inside generator expressions too
+            ev = bool(eval(compile(tree, "<selfcheck>", "eval"), g))  # noqa: S307
             ok = ev == ref
             why = "eval=%r walker=%r" % (ev, ref)
         except Exception as e:  # noqa: BLE001
